@@ -265,6 +265,11 @@ def canon(text, who, addr=None, length=None, opsize16=False):
     if m and not (len(ops) == 3):
         mn = 'cmp' + m.group(2)
         ops = ops + [('imm', ['eq', 'lt', 'le', 'unord', 'neq', 'nlt', 'nle', 'ord'].index(m.group(1)))]
+    # objdump's carry-less multiply pseudo-ops: pclmullqhqdq x, y == pclmulqdq x, y, 0x10
+    m = re.match(r'^pclmul([lh])q([lh])qdq$', mn)
+    if m and len(ops) == 2:
+        mn = 'pclmulqdq'
+        ops = ops + [('imm', (1 if m.group(1) == 'h' else 0) | (0x10 if m.group(2) == 'h' else 0))]
     # implicit xmm0 of the SSE4.1 variable blends
     if mn in ('blendvps', 'blendvpd', 'pblendvb') and len(ops) == 3 and ops[2] == ('reg', 'xmm0'):
         ops = ops[:2]
